@@ -131,7 +131,7 @@ fn skeleton_driver(ctx: &RunCtx, stats: &mut Stats, rep: &mut Reporter) {
 pub fn property() -> Property {
     Property {
         id: "C03",
-        rule: "Valid positions (19 sources, counters drawn from {0,1,2,49,50,98..101,148..151,65534,65535} and random) x every \
+        rule: "Valid positions (20 sources, counters drawn from {0,1,2,49,50,98..101,148..151,65534,65535} and random) x every \
                reference-legal move: Board::make_move, Move::make_raw and make::Uci results are compared field by field (and as FEN text) \
                with the reference model's by-the-rules `apply` (counters saturate: never wrap). Non-trivial = position where some \
                applied move is a capture, special move, loses a castling right, or a counter is at its limit; distinct by \
